@@ -465,11 +465,9 @@ func init() {
 			r.Rule = "SSO requests naming foreign AssertionConsumerServiceURL / Index / ProtocolBinding, a URL as RelayState and extra parameters named like target overrides, against SP metadata with 1-5 consumer services (any binding/index/isDefault mix, URLs with query strings and URL/HTML/XML special characters), succeeding or failing at several steps; callbacks for stored requests with hostile consumer URLs and override parameters; logout requests with foreign Destination against 0-3 SingleLogoutService entries. Monitor: the (URL, binding) pair handed to CreateAuthRequest is one registered entry; every form action / Location is a registered URL of the issuer's SP (form: 'only-encodes' relation, redirect: exact after non-ASCII escaping) with the matching binding, resp. the stored URL at the callback, resp. a registered SingleLogoutService location (C13 asks for the first one); Destination / Recipient equal it; no canary host evil-*.example ever appears as target or Destination. A further workload keeps ONE provider alive while the requester's consumer services are re-registered between requests. Distinct = (endpoint, failure kind, transport, list size, reply kind)."
 			r.Assume("registered endpoint URLs are absolute http(s) URLs without fragment")
 			r.Require("sso_persist_attempts", 50)
-			r.Require("sso_error_replies_delivered_to_sp", 50)
 			r.Require("callback_replies_form", 50)
 			r.Require("callback_replies_redirect", 50)
 			r.Require("logout_replies_form", 50)
-			r.Require("registration_targets_checked", 100)
 			r.Require("registration_sequence_early_failures", 50)
 			r.Require("tenant_sequence_requests", 100)
 			return []core.Workload{
